@@ -1,9 +1,11 @@
 //go:build verif
 
 // Package vtime replaces "time" in the instrumented packages. Under an installed execution the
-// clock is virtual and frozen, Sleep is a scheduling point, and tickers/timers never fire (the
-// only timer in the library is a 10-minute ticker on the shutdown path; executions explored
-// here are far shorter - recorded as an assumption in the evidence).
+// clock is virtual: it stands still while threads run, Sleep is a scheduling point, and tickers
+// and timers are registered with the scheduler (verifrt.RegisterTimer). They fire only if the
+// harness runs a clock thread, which moves time on to the next timer when everything else has come
+// to rest; harnesses without one never see a timer fire (the only timer in the library is a
+// 10-minute ticker on the shutdown path).
 package vtime
 
 import (
@@ -40,7 +42,7 @@ func Now() Time {
 	if !rt.Active() {
 		return time.Now()
 	}
-	return epoch
+	return rt.VirtualNow()
 }
 func Since(t Time) Duration { return Now().Sub(t) }
 func Until(t Time) Duration { return t.Sub(Now()) }
@@ -61,6 +63,7 @@ func Sleep(d Duration) {
 type Ticker struct {
 	C    <-chan Time
 	real *time.Ticker
+	v    *rt.VTimer
 }
 
 func NewTicker(d Duration) *Ticker {
@@ -68,16 +71,23 @@ func NewTicker(d Duration) *Ticker {
 		t := time.NewTicker(d)
 		return &Ticker{C: t.C, real: t}
 	}
-	return &Ticker{C: make(chan Time, 1)}
+	ch := make(chan Time, 1)
+	return &Ticker{C: ch, v: rt.RegisterTimer(ch, d, d)}
 }
 func (t *Ticker) Stop() {
 	if t.real != nil {
 		t.real.Stop()
 	}
+	if t.v != nil {
+		t.v.Stop()
+	}
 }
 func (t *Ticker) Reset(d Duration) {
 	if t.real != nil {
 		t.real.Reset(d)
+	}
+	if t.v != nil {
+		t.v.Reset(d)
 	}
 }
 func Tick(d Duration) <-chan Time { return NewTicker(d).C }
@@ -85,6 +95,7 @@ func Tick(d Duration) <-chan Time { return NewTicker(d).C }
 type Timer struct {
 	C    <-chan Time
 	real *time.Timer
+	v    *rt.VTimer
 }
 
 func NewTimer(d Duration) *Timer {
@@ -92,17 +103,24 @@ func NewTimer(d Duration) *Timer {
 		t := time.NewTimer(d)
 		return &Timer{C: t.C, real: t}
 	}
-	return &Timer{C: make(chan Time, 1)}
+	ch := make(chan Time, 1)
+	return &Timer{C: ch, v: rt.RegisterTimer(ch, d, 0)}
 }
 func (t *Timer) Stop() bool {
 	if t.real != nil {
 		return t.real.Stop()
+	}
+	if t.v != nil {
+		return t.v.Stop()
 	}
 	return true
 }
 func (t *Timer) Reset(d Duration) bool {
 	if t.real != nil {
 		return t.real.Reset(d)
+	}
+	if t.v != nil {
+		return t.v.Reset(d)
 	}
 	return true
 }
